@@ -67,16 +67,16 @@ open Scalar
 /-- `Tensor::dropout`: a generator seeded with 12345, one draw per element in row-major order, the
     element is zeroed when the draw is `< rate` -/
 def Tensor.dropout (t : Tensor α) (rate : α) : Except Err (Tensor α) :=
-  let f : Random.Gen → α → Random.Gen × α := fun g x =>
-    match Random.generate g (0 : α) 1 with
+  let f : Rng.Gen → α → Rng.Gen × α := fun g x =>
+    match Rng.generate g (0 : α) 1 with
     | .ok (g', v) => (g', if lt v rate then 0 else x)
     | .error _ => (g, x)   -- cannot happen: the state is reduced (`C18.step_ok`)
-  let g0 := Random.create 12345
+  let g0 := Rng.create 12345
   match t.data with
   | .single d => .ok ⟨t.shape, .single (L.traverse1 f g0 d).2⟩
   | .double d => .ok ⟨t.shape, .double (L.traverse2 f g0 d).2⟩
   | .triple d => .ok ⟨t.shape, .triple (L.traverse3 f g0 d).2⟩
-  | .quadruple d => .ok ⟨t.shape, .quadruple (d.foldl (fun (acc : Random.Gen × V4 α) k =>
+  | .quadruple d => .ok ⟨t.shape, .quadruple (d.foldl (fun (acc : Rng.Gen × V4 α) k =>
       let (g', k') := L.traverse3 f acc.1 k; (g', acc.2 ++ [k'])) (g0, [])).2⟩
 
 /-- arg-max coordinates per pooling window: `[c][h][w]` → list of `(row, col)` -/
@@ -131,9 +131,9 @@ def finish (post : Tensor α) (training : Bool) (dropout : Option α) (flatten :
   | .error e => .error e
   | .ok p => if flatten then p.flatten else .ok p
 
-/-! ## Dense -/
+/-! ## DenseLayer -/
 
-structure Dense (α : Type) where
+structure DenseLayer (α : Type) where
   inputs : Shape
   outputs : Shape
   loops : α
@@ -144,10 +144,10 @@ structure Dense (α : Type) where
   dropout : Option α
   training : Bool
 
-namespace Dense
+namespace DenseLayer
 
 /-- `Dense::forward` → `(pre, post)` -/
-def forward (l : Dense α) (x : Tensor α) : Except Err (Tensor α × Tensor α) :=
+def forward (l : DenseLayer α) (x : Tensor α) : Except Err (Tensor α × Tensor α) :=
   match l.weights.dot x with
   | .error e => .error e
   | .ok pre0 =>
@@ -168,13 +168,13 @@ def forward (l : Dense α) (x : Tensor α) : Except Err (Tensor α × Tensor α)
 /-- the factor multiplied with the upstream gradient: the activation's derivative, except for a
     soft-max layer, whose objective gradient `predicted − actual` is already the derivative with
     respect to the logits (repair of D6) -/
-def localDerivative (l : Dense α) (output : Tensor α) : Except Err (Tensor α) :=
+def localDerivative (l : DenseLayer α) (output : Tensor α) : Except Err (Tensor α) :=
   match l.act with
   | .softmax => Tensor.ones output.shape
   | a => a.backward output
 
 /-- `Dense::backward` → `(input gradient, weight gradient, bias gradient)` -/
-def backward (l : Dense α) (gradient input output : Tensor α) :
+def backward (l : DenseLayer α) (gradient input output : Tensor α) :
     Except Err (Tensor α × Tensor α × Option (Tensor α)) :=
   let g : Except Err (Tensor α) :=
     match gradient.shape with
@@ -196,12 +196,12 @@ def backward (l : Dense α) (gradient input output : Tensor α) :
         | .error e => .error e
         | .ok ig => .ok (ig, wg, l.bias.map (fun _ => delta))
 
-def parameters (l : Dense α) : Except Err Nat :=
+def parameters (l : DenseLayer α) : Except Err Nat :=
   match l.inputs, l.outputs with
   | .single i, .single o => .ok (i * o + (if l.bias.isSome then o else 0))
   | _, _ => .error .reject
 
-end Dense
+end DenseLayer
 
 /-! ## Convolution -/
 
